@@ -708,7 +708,25 @@ func (a *Adv) AuthProbes(perTxn int) int {
 				sp = &x.SiafundInputs[0].SatisfiedPolicy
 			}
 			label := ""
-			switch rapid.IntRange(0, 6).Draw(t, "v2witness") {
+			wcase := rapid.IntRange(0, 6).Draw(t, "v2witness")
+			if ucp, ok := sp.Policy.Type.(types.PolicyTypeUnlockConditions); ok && ucp.SignaturesRequired >= 2 && len(sp.Signatures) >= 2 && rapid.Bool().Draw(t, "v2witnessMultisig") {
+				wcase = 7 // a legacy multi-signature address: prefer the tamper that only applies here
+			}
+			switch wcase {
+			case 7: // of the signatures of a legacy m-of-n input, the second is replaced by a copy of the first (all inputs of
+				// a v2 transaction sign one hash, so one key holder can produce this alone); the listed keys must be distinct,
+				// otherwise the holder of a key listed twice legitimately counts twice
+				ucp := sp.Policy.Type.(types.PolicyTypeUnlockConditions)
+				distinct := !policyUsesUnknownAlgo(sp.Policy)
+				for i := range ucp.PublicKeys {
+					for j := i + 1; j < len(ucp.PublicKeys); j++ {
+						distinct = distinct && !bytes.Equal(ucp.PublicKeys[i].Key, ucp.PublicKeys[j].Key)
+					}
+				}
+				if distinct && sp.Signatures[0] != sp.Signatures[1] {
+					sp.Signatures[1] = sp.Signatures[0]
+					label = "v2/witness/one-key-signs-twice"
+				}
 			case 0:
 				if len(sp.Signatures) > 0 && !policyUsesUnknownAlgo(sp.Policy) {
 					sp.Signatures[rapid.IntRange(0, len(sp.Signatures)-1).Draw(t, "sigIdx")][rapid.IntRange(0, 63).Draw(t, "sigByte")] ^= 1 << uint(rapid.IntRange(0, 7).Draw(t, "sigBit"))
